@@ -112,6 +112,10 @@ func ZZ_C02_rounds() {
 				node.Annotations[prefix+"agent"] = `{"requests":`
 			}
 		}
+		// a soft taint (PreferNoSchedule) does not make a node ineligible
+		if i == 1 && nondet.Bool("node1.preferNoScheduleTaint") {
+			node.Spec.Taints = []corev1.Taint{{Key: "maintenance", Value: "soon", Effect: corev1.TaintEffectPreferNoSchedule}}
+		}
 		c.Nodes = append(c.Nodes, node)
 		switch nondet.String("node"+strconv.Itoa(i)+".pod", "none", "old", "new") {
 		case "old":
